@@ -491,5 +491,15 @@ def run(ctx, rep, tier="quick"):
     s5(ctx, rep)
     s6(ctx, rep)
     s6b(ctx, rep)
+    from .common import shared_mutable_stores
+    n_ = 0
+    for f_ in sorted(ctx.P.functions.values(), key=lambda f: f.qualname):
+        if f_.module.relpath in ["syne_tune/backend/trial_backend.py", "syne_tune/backend/simulator_backend/simulator_backend.py", "syne_tune/backend/simulator_backend/events.py", "syne_tune/tuner.py", "syne_tune/blackbox_repository/simulated_tabular_backend.py"]:
+            n_ += 1
+            for name, sinks in shared_mutable_stores(ctx, f_):
+                rep.bad("S5", "aliasing", f"{f_.short}: the mailbox and the trial record hold separate lists", f_, sinks[0],
+                        f"the one list `{name}` is stored in {len(sinks)} places: a result appended to one of them later also appears in the "
+                        "other, so it is appended twice to the shared list and delivered twice")
+    rep.put(n_ > 0, "S5", "aliasing", "no fresh list / dict is stored in two long-lived places of the backends", None, None, f"{n_} functions swept")
     s7(ctx, rep)
     s8(ctx, rep)
